@@ -941,6 +941,12 @@ def main_check(check, argv):
         if agg.probes.get(name, 0) == 0 and agg.faults.get(name, 0) == 0:
             print(f"warning: probe/fault '{name}' never fired in this batch", flush=True)
 
+    for name in getattr(check, "DEGRADED_PROBES", ()):
+        if agg.probes.get(name, 0):
+            print(f"warning: '{name}' in {agg.probes[name]} runs: a seam of the harness found nothing to attach to in this "
+                  f"version of the library, so that part of the exploration did not take place", flush=True)
+            extra.setdefault("degraded", []).append(name)
+
     wall = time.monotonic() - t0
     extra["batch_wall_s"] = round(batch_wall, 2)
     if hasattr(check, "evidence_extra"):
